@@ -233,6 +233,7 @@ func runC16(c *Ctx) {
 	ruleDict(c, p, "C16.dict")
 	ruleRebuild(c, p, "C16.rebuild")
 	ruleNoAdopt(c, p, "C16.alias")
+	ruleAdopt(c, p, "C16.adopt")
 	c.R.Assumptions = append(c.R.Assumptions,
 		"decided: Reset clears every content field that Append*/DecodeColumn/Prepare write; block decoding resets each accepted target on every path; Prepare renumbers the dictionary from a cleared map and index and rebuilds key columns from length 0; not decided: result equality after arbitrary histories")
 }
@@ -276,8 +277,42 @@ func ruleResetComplete(c *Ctx, p *core.Program) {
 		sort.Strings(missing)
 		n++
 		key := "reset/" + ct.Obj().Name()
+		// the clearing is unconditional: no path through Reset avoids it (other than a nil test of the field itself)
+		var conditional []string
+		if len(missing) == 0 {
+			clears := resetClearPoints(p, reset, ct)
+			for f := range written {
+				if !contentField(ct, f) || len(clears[f]) == 0 {
+					continue
+				}
+				pts := clears[f]
+				hit := core.ReachAvoiding(core.Entry(reset), func(x ssa.Instruction) bool {
+					_, ok := x.(*ssa.Return)
+					return ok && x.Block().Comment != "recover"
+				}, func(x ssa.Instruction) bool {
+					for _, cp := range pts {
+						if x == cp.in || cp.hdr != nil && x.Block() == cp.hdr {
+							return true
+						}
+					}
+					return false
+				}, core.WithoutEdges(core.CondEdges(reset, true, func(cond ssa.Value) (bool, bool) {
+					x, nonNil, ok := nilCmp(cond)
+					if !ok || recvFieldOfValue(x, ct) != f {
+						return false, false
+					}
+					return !nonNil, true
+				})))
+				if len(hit) > 0 {
+					conditional = append(conditional, f)
+				}
+			}
+			sort.Strings(conditional)
+		}
 		if len(missing) > 0 {
 			c.R.Bad(rule, key, cfg, p.Pos(reset.Pos()), "Reset does not clear "+strings.Join(missing, ", ")+", which Append/DecodeColumn/Prepare fill: reused columns carry old contents over")
+		} else if len(conditional) > 0 {
+			c.R.Bad(rule, key, cfg, p.Pos(reset.Pos()), "Reset clears "+strings.Join(conditional, ", ")+" only on some paths (depending on the column's current state): what a previous use left in the other state survives the reset and is appended to by the next decode")
 		} else {
 			var w []string
 			for f := range written {
@@ -923,15 +958,23 @@ func ruleAdopt(c *Ctx, p *core.Program, rule string) {
 			}
 		}
 		bad := false
-		for _, s := range stores {
-			for _, e := range own {
-				if core.OnlyViaEdges(inf, s, []core.Edge{e}) {
-					bad = true
-					c.R.Bad(rule, key, cfg, p.Pos(s.Pos()), "Infer adopts the server's parameters only under a condition on the target's own previous parameters: a target configured earlier keeps its old parameter while Conflicts accepts the server's type, so values are decoded with the wrong scale")
-					break
+		isStore := func(x ssa.Instruction) bool {
+			for _, s := range stores {
+				if s == x {
+					return true
 				}
 			}
-			if bad {
+			return false
+		}
+		for _, e := range own {
+			// after a test of the target's own previous parameters, success without adopting anything
+			hits := core.ReachAvoiding(core.Point{B: e.B.Succs[e.Succ], I: -1}, func(x ssa.Instruction) bool {
+				ret, ok := x.(*ssa.Return)
+				return ok && x.Block().Comment != "recover" && defaultSuccess(inf, ret)
+			}, isStore, nil)
+			if len(hits) > 0 {
+				bad = true
+				c.R.Bad(rule, key, cfg, p.Pos(hits[0].At.Pos()), "Infer can succeed without adopting the server's parameters, depending on the target's own previous parameters: a target configured or inferred earlier keeps its old parameter while Conflicts accepts the server's type, so values are decoded with the wrong scale / mapping")
 				break
 			}
 		}
@@ -1034,4 +1077,75 @@ func ruleEndMarker(c *Ctx, p *core.Program, rule string) {
 	} else {
 		c.R.Ok(rule, "Block.End", cfg, p.Pos(end.Pos()), "true exactly for Columns = 0 and Rows = 0 (6 cases folded)")
 	}
+}
+
+type clearPoint struct {
+	in  ssa.Instruction
+	hdr *ssa.BasicBlock // header of the loop the instruction sits in (zero iterations = nothing to clear)
+}
+
+// resetClearPoints: the instructions in reset's own body that clear each receiver field.
+func resetClearPoints(p *core.Program, reset *ssa.Function, named *types.Named) map[string][]clearPoint {
+	out := map[string][]clearPoint{}
+	add := func(f string, in ssa.Instruction) {
+		cp := clearPoint{in: in}
+		if core.InLoop(in) {
+			cp.hdr = core.LoopHeader(in)
+		}
+		out[f] = append(out[f], cp)
+	}
+	for _, b := range reset.Blocks {
+		for _, in := range b.Instrs {
+			switch x := in.(type) {
+			case *ssa.Store:
+				if nm := recvFieldOf(x.Addr, named); nm != "" {
+					add(nm, in)
+				}
+			case *ssa.MapUpdate:
+				if nm := recvFieldOfValue(x.Map, named); nm != "" {
+					add(nm, in)
+				}
+			case ssa.CallInstruction:
+				cc := x.Common()
+				if bi, ok := cc.Value.(*ssa.Builtin); ok && (bi.Name() == "delete" || bi.Name() == "clear") {
+					if nm := recvFieldOfValue(cc.Args[0], named); nm != "" {
+						add(nm, in)
+					}
+					continue
+				}
+				// a call into a library function: counts for every field that function (and what it calls) stores to
+				if sf := core.StaticFn(x); sf != nil && pkgOf(sf) != nil && pkgOf(sf).Path() == core.PkgProto && sf != reset {
+					for f := range recvFieldStores(p, sf, named) {
+						add(f, in)
+					}
+				}
+				cf := core.CalleeFunc(x)
+				if cf != nil && cf.Name() == "Reset" {
+					var rv ssa.Value
+					if cc.IsInvoke() {
+						rv = cc.Value
+					} else if len(cc.Args) > 0 {
+						rv = cc.Args[0]
+					}
+					if nm := recvFieldOfValue(rv, named); nm != "" {
+						add(nm, in)
+					}
+					if rc, ok := rv.(*ssa.Call); ok {
+						if hf := core.StaticFn(rc); hf != nil {
+							for _, hb := range hf.Blocks {
+								for _, hi := range hb.Instrs {
+									if fa, ok := hi.(*ssa.FieldAddr); ok {
+										if n := core.NamedOf(fa.X.Type()); n != nil && n.Obj() == named.Obj() {
+											add(fieldNameOnly(fa.X.Type(), fa.Field), in)
+										}
+									}
+								}
+							}
+						}
+					}
+				}
+			}
+		}
+	}
+	return out
 }
